@@ -17,7 +17,11 @@ def run(ctx):
     n = 40 if ctx.quick else 1500
     for it in range(n):
         k = rng.choice([2, 2, 2, 3, 3, 4, 5])
-        vss = impl.leaf_family(ctx, k)
+        if it % 4 == 3:
+            k = min(k, 3)
+            vss, unit = impl.scaled_family(ctx, k)       # the same kind of drawing in other units of length (exact)
+        else:
+            vss = impl.leaf_family(ctx, k)
         e = impl.rand_expr(rng, range(k))
         shapes = [impl.poly(vs) for vs in vss]
         desc = {"leaves": vss, "expr": impl.show_expr(e)}
